@@ -4,7 +4,7 @@ cd /verif
 for d in seeded/*/; do
   id=$(basename $d); pid=${id%%-*}
   [ -f $d/patch.diff ] || continue
-  git -C /repo checkout -q -- . ; git -C /repo apply $d/patch.diff || { echo "$id: patch does not apply"; continue; }
+  git -C /repo checkout -q -- . ; git -C /repo apply /verif/$d/patch.diff || { echo "$id: patch does not apply"; continue; }
   out=$(/venv/bin/python -m sa.check $pid --tier quick --no-evidence 2>&1); rc=$?
   git -C /repo checkout -q -- .
   rules=$(echo "$out" | grep -o 'rule=C[0-9]*\.[A-Z0-9]*' | sort -u | tr '\n' ' ')
